@@ -1,5 +1,6 @@
 import ZoektModel.Basic.Proto
 import ZoektModel.C13.Spec
+import ZoektModel.C13.Sharded
 namespace ZoektModel.C13
 open ZoektModel ZoektModel.Proto
 
@@ -61,7 +62,7 @@ ops (one history per `reset`):
   reset <ignore path id>
   igdef <blob> <paths>               the ignore file with this blob excludes these paths
   commit <b> <tree>
-  index <delta 0|1> <thr> <brs> [ns] impl/model: `delta|full files=… changed=… shards=<n>`
+  index <delta 0|1> <thr> <brs> <cuts> impl/model: `delta|full files=… changed=… shards=<n>`
   view <b>                           impl: (path:blob) pairs the real branch-restricted search returned;
                                      model: its own view; verdict: `checkView` of the implementation's view
 -/
@@ -80,23 +81,22 @@ def stepLine (st : St) (line : String) : St × String :=
     match b.toNat?, parseTree t with
     | some b, some t => ({ st with repo := (b, t) :: st.repo }, answer "ok")
     | _, _ => (st, badCase "commit fields")
-  | "index" :: d :: thr :: brs :: rest =>
-    match bool? d, thr.toNat?, natList? brs with
-    | some d, some thr, some brs =>
+  | ["index", d, thr, brs, cuts] =>
+    match bool? d, thr.toNat?, natList? brs, natList? cuts with
+    | some d, some thr, some brs, some cuts =>
       let I := st.ignore
       let isDelta := d && deltaOk st.idx thr brs && !mixedChange diffTrees st.idx.snap st.repo st.idx.brs &&
         !ignoreBlocksDelta I diffTrees st.idx.snap st.repo st.idx.brs
-      let idx' := indexRun I diffTrees st.idx st.repo d thr brs
-      -- `ns`: the run used a small ShardMax, so the number of shards is not the model's
-      let nsh := if rest == ["ns"] then "*" else toString idx'.shards.length
+      -- `cuts`: the document counts of the shards the real run wrote (all but the last)
+      let idx' := indexRunS I diffTrees st.idx st.repo d thr brs cuts
       let out :=
         if isDelta then
           let res := prepareDelta diffTrees st.idx.snap st.repo st.idx.brs
-          s!"delta files={showFiles res.1} changed={showNatList (natSet res.2)} shards={nsh}"
+          s!"delta files={showFiles res.1} changed={showNatList (natSet res.2)} shards={idx'.shards.length}"
         else
-          s!"full files={showFiles (collect I st.repo brs)} changed=- shards={nsh}"
+          s!"full files={showFiles (collect I st.repo brs)} changed=- shards={idx'.shards.length}"
       ({ st with idx := idx' }, answer out)
-    | _, _, _ => (st, badCase "index fields")
+    | _, _, _, _ => (st, badCase "index fields")
   | ["view", b] =>
     match b.toNat?, parsePairs impl with
     | some b, some iv =>
